@@ -2,6 +2,7 @@
 package main
 
 import (
+	"encoding/json"
 	"flag"
 	"fmt"
 	"os"
@@ -70,13 +71,32 @@ func main() {
 	corpus := fs.String("corpus", "/verif/replays/corpus", "")
 	known := fs.String("known", "/verif/known_findings.json", "")
 	replay := fs.String("replay", "", "")
-	fs.Parse(os.Args[2:])
+	isolate := fs.Bool("isolate", false, "run every case's implementation side in a child process")
+	implOnly := len(os.Args) > 2 && os.Args[2] == "implonly"
+	if !implOnly {
+		fs.Parse(os.Args[2:])
+	}
 	mk, ok := registry[id]
 	if !ok {
 		fmt.Fprintln(os.Stderr, "unknown property", id)
 		os.Exit(2)
 	}
 	p := mk()
+	if implOnly {
+		var c fw.Case
+		if err := json.NewDecoder(os.Stdin).Decode(&c); err != nil {
+			os.Exit(2)
+		}
+		out := p.RunImpl(c)
+		b, _ := json.Marshal(out)
+		os.Stdout.Write(b)
+		c15.Shutdown()
+		return
+	}
+	if *isolate {
+		self, _ := os.Executable()
+		fw.Isolate = []string{self, id}
+	}
 	cfg := &fw.Config{Seed: *seed, Tier: *tier, Work: *work, Driver: *driver, Replays: *replays, Corpus: *corpus,
 		Known: fw.LoadKnown(*known), ReplayFile: *replay}
 	if d, ok := p.(interface{ Describe(*fw.Config) }); ok {
